@@ -8,4 +8,4 @@ TRUSTED = simcheck.TRUSTED_SIM
 def run(ctx):
     simcheck.run_sim_property(ctx, [], simmon.mon_c11,
                               "a planner placed a task before a co-decided or running predecessor ends, or placed it although a "
-                              "co-decided predecessor was left unplaced")
+                              "co-decided predecessor was left unplaced", machine=False)
